@@ -555,7 +555,8 @@ class Engine:
                 'in_place on/off), FILTER_DEFAULT (catalog.filters), FILTER_SPATIAL, REGROUP (same statements in 5 orders / '
                 'groupings on twins), REPEAT (same call again), DATETIME_EQUIV (datetime statement vs origin_time statement '
                 'for one instant), LOAD_APPLY (csep.load_catalog(apply_filters=True)), TZ_SWITCH; thresholds are event values, '
-                'their +-1-ulp neighbours and values between; instants uniform over 1900..2200 at every millisecond phase; '
+                'their +-1-ulp neighbours and values between, written in every form float() reads (repr, exponent notation, '
+                "'+x', 'inf', integers without a point); instants uniform over 1900..2200 at every millisecond phase; "
                 'distinct = digest of (number of events, op list incl. statements); non-trivial = >= 1 event and >= 2 ops')
 
     @staticmethod
